@@ -172,7 +172,7 @@ Fixpoint enc_form (v : dval) : bool :=
 Lemma good_sigv g : good (VSigv g false).
 Proof.
   intros st Hw Hs _ _ _ _. cbn [sval_of ser]. cbn [wf] in Hw. apply andb_true_iff in Hw as [Hw _].
-  unfold sigval_ok in Hw. apply andb_true_iff in Hw as [_ Hl]. apply N.leb_le in Hl.
+  unfold sigval_ok in Hw. apply andb_true_iff in Hw as [_ Hl]. apply N.leb_le in Hl. cbv iota in Hl.
   rewrite ser_str_sig by auto. reflexivity.
 Qed.
 
